@@ -569,7 +569,10 @@ func main() {
 			case s := <-ch:
 				out.WriteString(s)
 				out.WriteByte('\n')
-			case <-time.After(30 * time.Second):
+				if in.Buffered() == 0 {
+					out.Flush()
+				}
+			case <-time.After(180 * time.Second):
 				out.WriteString("HANG\n")
 				out.Flush()
 				os.Exit(3)
